@@ -90,7 +90,7 @@ func init() {
 	Registry["C20"] = Spec{
 		Fn:          c20,
 		Level:       "exploration",
-		Rule:        "sub-spaces enumerated per chunk: every Date (65536) and every Date32 day 1900-01-01..2299-12-31 x fixed zones x 3 local times; DateTime boundaries+strided (quick) / all 2^32 (thorough); DateTime64 p=0..9 boundary/random instants of the documented range; wide-int From*/accessor pairs on boundary+random; IPv4 strided (quick) / all 2^32 (thorough); Interval.Add against an independent civil calendar. Non-trivial = value other than 0; distinct = (sub-space, value) fingerprints",
+		Rule:        "sub-spaces enumerated per chunk: every Date (65536) and every Date32 day 1900-01-01..2299-12-31 x fixed zones x 3 local times; DateTime boundaries+strided (quick) / all 2^32 (thorough); DateTime64 p=0..9 boundary/random instants of the documented range; wide-int From*/accessor pairs on boundary+random; IPv4 strided (quick) / all 2^32 (thorough); Interval.Add against an independent civil calendar; the time conversions again through the column methods (ColDateTime64 p=0..9 Append / AppendArr / Array().Append / Row with a location, ColDateTime, ColDate, ColDate32 Append / AppendArr) against arithmetic of the harness. Non-trivial = value other than 0; distinct = (sub-space, value) fingerprints",
 		Assumptions: []string{"oracle is an independent days<->civil implementation cross-checked against package time on every Date/Date32 day", "Go's time.Time arithmetic (Unix, Date, AddDate) is trusted for constructing inputs"},
 		MinDistinct: 1000,
 		Exhaustive:  func(tier string) bool { return true },
@@ -306,6 +306,14 @@ func c20(r *core.Run) {
 		}
 	}
 
+	// --- the same conversions through the column methods (Append, AppendArr, Array().Append, Row) ---
+	for p := 0; p <= 9; p++ {
+		if !next() {
+			continue
+		}
+		c20TimeColumns(r, p, zones)
+	}
+
 	// --- wide integers ---
 	if next() {
 		rng := r.Rand(0, "wide")
@@ -514,4 +522,158 @@ func c20(r *core.Run) {
 		}
 		r.Sample(map[string]any{"subspace": "Interval.Add", "bases": n, "scales": 8})
 	}
+}
+
+// c20TimeColumns drives ColDateTime64(p) (and, with p == 0, ColDateTime, ColDate, ColDate32) with a
+// batch of instants through Append, AppendArr and Array().Append and compares raw values and Row(i)
+// with arithmetic of its own.
+func c20TimeColumns(r *core.Run, p int, zones []int) {
+	const minSec, maxSec = int64(-2208988800), int64(10413791999)
+	rng := r.Rand(int64(p), "dt64col")
+	pow := int64(1)
+	for i := 0; i < p; i++ {
+		pow *= 10
+	}
+	tickNs := int64(1e9) / pow
+	lim := new(big.Int).SetInt64(math.MaxInt64)
+	fits := func(sec int64) bool {
+		b := new(big.Int).Mul(big.NewInt(sec), big.NewInt(pow))
+		b.Abs(b)
+		b.Add(b, big.NewInt(pow))
+		return b.Cmp(lim) < 0
+	}
+	loc := time.FixedZone("z", zones[rng.Intn(len(zones))])
+	var batch []time.Time
+	var secs, nss []int64
+	add := func(sec, ns int64) {
+		if !fits(sec) {
+			return
+		}
+		secs, nss = append(secs, sec), append(nss, ns)
+		tt := time.Unix(sec, ns)
+		if rng.Intn(2) == 0 {
+			tt = tt.In(loc)
+		} else {
+			tt = tt.UTC()
+		}
+		batch = append(batch, tt)
+	}
+	for _, s := range []int64{minSec, minSec + 1, -2, -1, 0, 1, 1 << 31, 1<<32 - 1, 1 << 32, 9223372036, 9223372037, -9223372036, -9223372037, 9783072000, maxSec - 1, maxSec} {
+		add(s, 0)
+		add(s, tickNs*rng.Int63n(pow))
+		add(s, rng.Int63n(1e9))
+	}
+	n := r.Pick(1500, 60000)
+	for i := 0; i < n; i++ {
+		add(minSec+rng.Int63n(maxSec-minSec+1), tickNs*rng.Int63n(pow))
+	}
+	prec := proto.Precision(p)
+	a := new(proto.ColDateTime64).WithPrecision(prec).WithLocation(loc)
+	b := new(proto.ColDateTime64).WithPrecision(prec).WithLocation(loc)
+	inner := new(proto.ColDateTime64).WithPrecision(prec).WithLocation(loc)
+	arr := inner.Array()
+	for _, tt := range batch {
+		a.Append(tt)
+	}
+	// bulk paths in pieces of varying length
+	for i := 0; i < len(batch); {
+		k := 1 + rng.Intn(64)
+		if i+k > len(batch) {
+			k = len(batch) - i
+		}
+		b.AppendArr(batch[i : i+k])
+		arr.Append(batch[i : i+k])
+		i += k
+	}
+	if a.Rows() != len(batch) || b.Rows() != len(batch) || inner.Rows() != len(batch) {
+		r.Violation("ColDateTime64:rows", fmt.Sprintf("p=%d: %d instants appended, Append column has %d rows, AppendArr column %d, array elements %d", p, len(batch), a.Rows(), b.Rows(), inner.Rows()), p)
+		return
+	}
+	for i := range batch {
+		r.Eval()
+		r.NonTrivial("ColDateTime64", p, secs[i], nss[i])
+		era := "1678..2262"
+		if secs[i] > 9223372036 || secs[i] < -9223372036 {
+			era = "outside-UnixNano-range"
+		}
+		want := secs[i]*pow + nss[i]/tickNs
+		if nss[i]%tickNs != 0 {
+			// not representable: the three paths must still agree
+			want = int64(a.Data[i])
+		}
+		cs := map[string]any{"sec": secs[i], "nsec": nss[i], "p": p}
+		if int64(a.Data[i]) != want {
+			r.Violation("ColDateTime64.Append:"+era, fmt.Sprintf("Append(%s) at p=%d stored %d, want %d", batch[i].Format(time.RFC3339Nano), p, a.Data[i], want), cs)
+		}
+		if int64(b.Data[i]) != want {
+			r.Violation("ColDateTime64.AppendArr:"+era, fmt.Sprintf("AppendArr(...%s...) at p=%d stored %d, want %d (Append stores %d)", batch[i].Format(time.RFC3339Nano), p, b.Data[i], want, a.Data[i]), cs)
+		}
+		if int64(inner.Data[i]) != want {
+			r.Violation("ColDateTime64.Array.Append:"+era, fmt.Sprintf("Array().Append(...%s...) at p=%d stored %d, want %d", batch[i].Format(time.RFC3339Nano), p, inner.Data[i], want), cs)
+		}
+		if nss[i]%tickNs == 0 {
+			for name, got := range map[string]time.Time{"Append": a.Row(i), "AppendArr": b.Row(i)} {
+				if got.Unix() != secs[i] || int64(got.Nanosecond()) != nss[i] {
+					r.Violation("ColDateTime64.Row:"+name+":"+era, fmt.Sprintf("p=%d: Row(%d) after %s(%s) = %s", p, i, name, batch[i].Format(time.RFC3339Nano), got.Format(time.RFC3339Nano)), cs)
+				}
+				if _, off := got.Zone(); off != zoneOffset(loc) {
+					r.Violation("ColDateTime64.Row:location", fmt.Sprintf("Row(%d) is in zone offset %d, the column's location has %d", i, off, zoneOffset(loc)), cs)
+				}
+			}
+		}
+	}
+	r.Sample(map[string]any{"subspace": "ColDateTime64 Append/AppendArr/Array/Row", "precision": p, "instants": len(batch)})
+	if p != 0 {
+		return
+	}
+	// second-resolution columns: DateTime (0..2^32-1), Date (0..65535 days), Date32 (1900..2299)
+	var dtA, dtB proto.ColDateTime
+	var dA, dB proto.ColDate
+	var d32A, d32B proto.ColDate32
+	var tb []time.Time
+	var wantDT []uint32
+	var wantD []uint16
+	var wantD32 []int32
+	for i := 0; i < r.Pick(20000, 400000); i++ {
+		off := zones[rng.Intn(len(zones))]
+		sec := rng.Int63n(1 << 32)
+		switch rng.Intn(8) {
+		case 0:
+			sec = []int64{0, 1, 86399, 86400, 1<<31 - 1, 1 << 31, 1<<32 - 1}[rng.Intn(7)]
+		}
+		tt := time.Unix(sec, rng.Int63n(1e9)).In(time.FixedZone("z", off))
+		tb = append(tb, tt)
+		wantDT = append(wantDT, uint32(sec))
+		day := floorDiv(sec+int64(off), 86400)
+		wantD = append(wantD, uint16(day))
+		wantD32 = append(wantD32, int32(day))
+	}
+	for _, tt := range tb {
+		dtA.Append(tt)
+		dA.Append(tt)
+		d32A.Append(tt)
+	}
+	dtB.AppendArr(tb)
+	dB.AppendArr(tb)
+	d32B.AppendArr(tb)
+	for i, tt := range tb {
+		r.Eval()
+		day := int64(wantD32[i])
+		cs := map[string]any{"time": tt.Format(time.RFC3339Nano)}
+		if uint32(dtA.Data[i]) != wantDT[i] || uint32(dtB.Data[i]) != wantDT[i] {
+			r.Violation("ColDateTime.Append/AppendArr", fmt.Sprintf("%s: Append stored %d, AppendArr %d, want %d", tt.Format(time.RFC3339), dtA.Data[i], dtB.Data[i], wantDT[i]), cs)
+		}
+		if day >= 0 && day <= 65535 && (uint16(dA[i]) != wantD[i] || uint16(dB[i]) != wantD[i]) {
+			r.Violation("ColDate.Append/AppendArr", fmt.Sprintf("%s: Append stored day %d, AppendArr %d, local calendar day is %d", tt.Format(time.RFC3339), dA[i], dB[i], wantD[i]), cs)
+		}
+		if int32(d32A[i]) != wantD32[i] || int32(d32B[i]) != wantD32[i] {
+			r.Violation("ColDate32.Append/AppendArr", fmt.Sprintf("%s: Append stored day %d, AppendArr %d, local calendar day is %d", tt.Format(time.RFC3339), d32A[i], d32B[i], wantD32[i]), cs)
+		}
+	}
+	r.Sample(map[string]any{"subspace": "ColDateTime/ColDate/ColDate32 Append/AppendArr", "instants": len(tb)})
+}
+
+func zoneOffset(l *time.Location) int {
+	_, off := time.Unix(0, 0).In(l).Zone()
+	return off
 }
